@@ -239,18 +239,27 @@ def build():
 
     # reader selection: the reader opened for a stream is the reader of the format its first bytes announce
     vglob = dict(wglob)
-    vglob["_is_raw_file"] = lambda interp: _Fn(lambda i, a, k: BOOL.fresh(i.ctx, "rawfile"))
+    # _is_raw_file(f): f is an unbuffered-or-buffered file ON DISK (io.FileIO / io.BufferedReader over one): decided by the source kind
+    vglob["_is_raw_file"] = lambda interp: _Fn(lambda i, a, k: isinstance(a[0], Opaque) and "FileIO" in a[0].attrs.get("isinstance", ()))
+    p.spec_funcs["raw_source"] = lambda interp, f: isinstance(f, Opaque) and "FileIO" in f.attrs.get("isinstance", ())
     p.models["isinstance:srcfile"] = lambda *a: False
     rens = {"yields_once": "len(yields) == 1",
             "legacy_returns_the_name": "implies(starts(FIRST, b'ZF'), yields[0][0] is filename and n_events('decompressor_file') == 0)",
             "plain_pickle_is_read_directly": "implies(starts(FIRST, b'\\x80'), yields[0][0] is fileobj and n_events('decompressor_file') == 0)",
-            "compressed_files_are_never_memmapped": "implies(n_events('decompressor_file') == 1, yields[0][1] is None)"}
+            "compressed_files_are_never_memmapped": "implies(n_events('decompressor_file') == 1, yields[0][1] is None)",
+            # C19: an uncompressed raw file is mapped in exactly the mode the caller asked for; nothing else ever is
+            # (files of joblib < 0.10, prefix ZF, are handed with the caller's mode to the compatibility loader)
+            "memmapped_iff_an_uncompressed_raw_file": "implies(not starts(FIRST, b'ZF'), (yields[0][1] is not None) == (mmap_mode is not None and n_events('decompressor_file') == 0 and raw_source(fileobj)))",
+            "the_requested_mode_or_none": "yields[0][1] is None or yields[0][1] is mmap_mode"}
     for m in METHODS:
         rens["reader_of_" + m] = ("implies(starts(FIRST, prefix_of('%s')), n_events('decompressor_file') == 1 and ev(0)[1] == '%s' and ev(0)[2] is fileobj "
                                   "and yields[0][0].inner.codec == '%s')" % (m, m, m))
     p.add(Contract(
         NU, "_validate_fileobject_and_memmap", props=["C03"], globals=vglob, ghost=dict(FIRST=BYTES, POS0=INT, POS=INT), setup=stream_setup,
-        params=dict(fileobj=lambda interp: Opaque("srcfile", None, hasattr={"peek": True}, isinstance=()), filename=STR, mmap_mode=OneOf(None, "r")),
+        # the source: a raw file on disk, an in-memory buffer, or some other buffered reader; every mmap mode
+        params=dict(fileobj=lambda interp: Opaque("srcfile", None, hasattr={"peek": True},
+                                                   isinstance=[(), ("BytesIO",), ("FileIO",)][interp.ctx.choose(3, "source-kind")]),
+                    filename=STR, mmap_mode=OneOf(None, "r", "r+", "w+", "c")),
         ensures=rens,
     ))
 
